@@ -15,6 +15,19 @@ import z3
 REPO = os.environ.get("SEGVC_REPO", "/repo")
 SRC = os.path.join(REPO, "src")
 
+if os.environ.get("SEGVC_QID"):
+    # debugging aid: name every quantifier after the source line that built it (for smt.qi.profile)
+    import sys as _sys
+
+    _orig_forall = z3.ForAll
+
+    def _forall(vs, body, **kw):
+        fr = _sys._getframe(1)
+        kw.setdefault("qid", f"{os.path.basename(fr.f_code.co_filename)[:-3]}_L{fr.f_lineno}")
+        return _orig_forall(vs, body, **kw)
+
+    z3.ForAll = _forall
+
 Z = z3.IntSort()
 B = z3.BoolSort()
 R = z3.RealSort()
@@ -54,6 +67,7 @@ REAL = Prim("real", R)
 STR = Prim("str", Z)  # opaque string ids
 OBJ = Prim("obj", Z)  # opaque object ids (typing.Any); 0 is None
 BYTES = Prim("bytes", z3.StringSort())
+INTINF = Prim("intinf", Z)  # `int >= 0 or math.inf`: +inf is encoded as -1 (no real arithmetic needed)
 OPTINT = Prim("optint", Z)  # `int | None` where the int is known to be >= 0: None is encoded as -1
 
 
@@ -284,7 +298,7 @@ class DequeView:
             self.lo <= self.hi,
             z3.ForAll([e], z3.Select(self.cnt, e) >= 0),
             z3.ForAll([i], z3.Implies(z3.And(self.lo <= i, i < self.hi), z3.Select(self.cnt, z3.Select(self.data, i)) >= 1)),
-            z3.Implies(self.lo == self.hi, z3.ForAll([e], z3.Select(self.cnt, e) == 0)),
+            z3.ForAll([e], z3.Implies(z3.Select(self.cnt, e) >= 1, self.lo < self.hi), patterns=[z3.Select(self.cnt, e)]),
         )
 
 
@@ -308,8 +322,7 @@ class SetView:
         e = z3.Const(self.h.st.uniq("e"), ci.elem.sort())
         return z3.And(
             self.card >= 0,
-            z3.ForAll([e], z3.Implies(z3.Select(self.mem, e), self.card >= 1)),
-            z3.Implies(self.card == 0, z3.ForAll([e], z3.Not(z3.Select(self.mem, e)))),
+            z3.ForAll([e], z3.Implies(z3.Select(self.mem, e), self.card >= 1), patterns=[z3.Select(self.mem, e)]),
         )
 
 
@@ -367,7 +380,7 @@ class ODictView:
                 [i, j],
                 z3.Implies(z3.And(self.lo <= i, i < j, j < self.hi), z3.Select(self.kdata, i) != z3.Select(self.kdata, j)),
             ),
-            z3.Implies(self.lo == self.hi, z3.ForAll([k], z3.Not(z3.Select(self.hasarr, k)))),
+            z3.ForAll([k], z3.Implies(z3.Select(self.hasarr, k), self.lo < self.hi), patterns=[z3.Select(self.hasarr, k)]),
         )
 
 
@@ -405,6 +418,7 @@ class Obligation:
 
 Z3_TIMEOUT_MS = int(os.environ.get("SEGVC_Z3_TIMEOUT_MS", "20000"))
 MBQI_TIMEOUT_MS = int(os.environ.get("SEGVC_MBQI_TIMEOUT_MS", "8000"))
+QI_BOUND = int(os.environ.get("SEGVC_QI_BOUND", "30000"))
 COVER_TIMEOUT_MS = int(os.environ.get("SEGVC_COVER_TIMEOUT_MS", "2500"))
 FEAS_TIMEOUT_MS = int(os.environ.get("SEGVC_FEAS_TIMEOUT_MS", "500"))
 
@@ -551,7 +565,36 @@ class State:
         if r2 == z3.sat:
             return "refuted", dt, s2.model(), "z3-mbqi model"
         if "timeout" in reason1 or "canceled" in reason1 or "resource" in reason1:
-            return "unknown", dt, None, f"stage1: {reason1}; stage2: {s2.reason_unknown()}"
+            # stage 3: E-matching did not saturate within the budget (instantiation blow-up over the many heap
+            # snapshots).  Ask again with a bounded number of instantiations: `unsat` is still a proof; otherwise the
+            # bounded run's model is a *candidate* counter-model (the obligation is reported refuted, the replay file
+            # says "candidate").  Only if that run times out as well is the obligation undecided.
+            s3 = z3.SimpleSolver()
+            s3.set("smt.mbqi", False)
+            s3.set("smt.auto_config", False)
+            s3.set("smt.qi.max_instances", QI_BOUND)
+            s3.set("timeout", Z3_TIMEOUT_MS)
+            s3.add(*assertions)
+            t3 = time.time()
+            r3 = s3.check()
+            t3 = time.time() - t3
+            dt = time.time() - t0
+            if r3 == z3.unsat:
+                return "proved", dt, None, "z3-ematch-bounded"
+            reason3 = s3.reason_unknown() if r3 == z3.unknown else "sat"
+            # hitting the instantiation bound is reported by z3 as "canceled" too; it is told apart from a timeout by
+            # the time the run took
+            if t3 < 0.8 * Z3_TIMEOUT_MS / 1000.0:
+                try:
+                    cand = s3.model()
+                except z3.Z3Exception:
+                    cand = None
+                return "refuted", dt, cand, f"candidate model after {QI_BOUND} quantifier instantiations (stage1: {reason1}; stage2: {s2.reason_unknown()}; stage3: {reason3})"
+            if os.environ.get("SEGVC_DUMP"):
+                self.n += 1
+                with open(os.path.join(os.environ["SEGVC_DUMP"], f"unknown-{os.getpid()}-{self.n}.smt2"), "w") as f:
+                    f.write(s2.to_smt2())
+            return "unknown", dt, None, f"stage1: {reason1}; stage2: {s2.reason_unknown()}; stage3: {reason3}"
         return "refuted", dt, cand, f"candidate model (stage1: {reason1}; stage2: {s2.reason_unknown()})"
 
 
